@@ -23,7 +23,7 @@ RULE = (
     "values x 5 units. distinct = distinct (sub-domain, input); non-trivial = every case except the empty string"
 )
 ASSUMPTIONS = [
-    "characters outside the alphabet (e.g. newline, non-ASCII digits) and longer strings are not explored",
+    "characters outside the alphabet and longer strings are explored only as single edits of twelve valid spellings (upper-case unit letters, white space of every kind, other separators); digits are the ASCII digits - other Unicode decimal digits are not explored",
     "reference grammar: (digits [. digits]) (px|em|%|c|pt) or the bare string '0'",
     "on an exact decimal tie either rounding direction is accepted when printing",
 ]
@@ -36,6 +36,8 @@ MANIFEST = {
 
 ALPHABET = list("015.-+epxtcm% ")
 UNITS = ["px", "em", "%", "c", "pt"]
+VALID_BASES = ["0", "1px", "12pt", "0.5em", "10%", "2c", "33.33%", "100px", "1.50em", "7c", "0px", "0.0pt"]
+EDIT_CHARS = list("PXEMCTpxemct%0159.,-+ \t\n\r\x0b\x0c\u00a0eE_") + ["\u2028"]
 REF = re.compile(r"\A(?:([0-9]+(?:\.[0-9]+)?)(px|em|%|c|pt)|0)\Z")
 
 
@@ -325,6 +327,7 @@ def shards(tier, seed):
         sh += [{"k": "S", "first": [a, b], "n": n} for a in ALPHABET for b in ALPHABET]
         sh += [{"k": "S", "first": [a], "n": 1} for a in ALPHABET]
     sh.append({"k": "S0"})
+    sh.append({"k": "V"})
     sh.append({"k": "L"})
     g = len(grid_specs())
     step = 40 if tier == "quick" else 20
@@ -348,6 +351,26 @@ def run_shard(d):
                 acc.case(("S", s), True, o, {"from_string": s, "outcome": o} if o != "syntax-error" else None)
                 for sig, det in v:
                     acc.violation(sig, {"k": "S", "s": s}, det)
+    elif k == "V":
+        # every valid spelling of a small set, and every string one edit away from it over a wider alphabet (upper-case
+        # unit letters, other digits and separators, white space of every kind)
+        seen = set()
+        for base in VALID_BASES:
+            cands = {base, base.upper(), base.lower(), base.title(), base.swapcase()}
+            for i in range(len(base) + 1):
+                for ch in EDIT_CHARS:
+                    cands.add(base[:i] + ch + base[i:])
+                    if i < len(base):
+                        cands.add(base[:i] + ch + base[i + 1 :])
+                if i < len(base):
+                    cands.add(base[:i] + base[i + 1 :])
+                    cands.add(base[:i] + base[i].swapcase() + base[i + 1 :])
+            for s in sorted(cands - seen):
+                seen.add(s)
+                v, o = eval_size_string(s)
+                acc.case(("V", s), True, o, {"from_string": s, "outcome": o} if o != "syntax-error" else None)
+                for sig, det in v:
+                    acc.violation(sig + "/one-edit-from-a-valid-size", {"k": "V", "s": s}, det)
     elif k == "S0":
         v, o = eval_size_string("")
         acc.case(("S", ""), False, o)
@@ -398,6 +421,9 @@ def replay(case):
     k = case["k"]
     if k == "S":
         v, _ = eval_size_string(case["s"])
+    elif k == "V":
+        v, _ = eval_size_string(case["s"])
+        v = [(sig + "/one-edit-from-a-valid-size", det) for sig, det in v]
     elif k == "L":
         v, _ = eval_list(case["kind"], case["items"])
     elif k == "P":
